@@ -7,7 +7,7 @@ open Otel Otel.Wire Otel.C06
 /-! Line kinds
 `sched <gen> <cap> <batch> <buf> | <op> <op> … => <obs> <obs> …`   one observation per op
    ops: `e<id>` `g+` `g-` `gc` `gd` (exporter returns nil / an error / context.Canceled / context.DeadlineExceeded:
-        the model does not distinguish the kinds of error) `f<fid>` `s<k>` `t` (wait until the per-export timeout of the exporter call in
+        the model does not distinguish the kinds of error) `f<fid>` `s<k>` `c<fid>` (the context of ForceFlush fid expires) `t` (wait until the per-export timeout of the exporter call in
         progress has fired; the exporter ignores it and stays in the call); forced schedules (build tag verif, hooks): `pe<id>`/`re<id>` park/release an
         Emit after its stopped check, `pf<fid>`/`rf<fid>` a ForceFlush after its stopped check, `ps<k>`/`rs` Shutdown at
         the entry of bufferExporter.Export (queue already flushed)
@@ -33,6 +33,7 @@ def parseOp (t : String) : Option Op :=
   else if t.startsWith "pf" then (dropS t 2).toNat?.map .pff
   else if t.startsWith "rf" then (dropS t 2).toNat?.map .rff
   else if t.startsWith "ps" then (dropS t 2).toNat?.map .psd
+  else if t.startsWith "c" then (dropS t 1).toNat?.map .cancel
   else if t.startsWith "s" then (dropS t 1).toNat?.map .sd
   else if t.startsWith "e" then (dropS t 1).toNat?.map .emit
   else if t.startsWith "f" then (dropS t 1).toNat?.map .ff
